@@ -31,6 +31,7 @@ type DefaultOutputBitStream struct {
 	current   uint64 // cached bits
 	os        io.WriteCloser
 	buffer    []byte
+	failed    error // set when a partial write made the stream unrecoverable
 }
 
 // NewDefaultOutputBitStream creates a bitstream for writing, using the provided stream as
@@ -216,8 +217,18 @@ func (this *DefaultOutputBitStream) flush() error {
 		return errors.New("Stream closed")
 	}
 
+	if this.failed != nil {
+		return this.failed
+	}
+
 	if this.position > 0 {
-		if _, err := this.os.Write(this.buffer[0:this.position]); err != nil {
+		if n, err := this.os.Write(this.buffer[0:this.position]); err != nil {
+			if n > 0 {
+				// The sink accepted a part of the buffer: writing the buffer again
+				// would duplicate these bytes, the stream cannot be completed anymore
+				this.failed = err
+			}
+
 			return err
 		}
 
